@@ -25,4 +25,6 @@ pub use stream::{
     ProcessedOperation, PublishError, PublishFuture, Source, StreamEvent, StreamPublisher,
     StreamSubscription,
 };
+#[cfg(p2panda_p2panda_verif)]
+pub use sync_metrics::verif_sync_metrics_totals;
 pub use sync_metrics::{SessionPhase, SyncError};
